@@ -1059,7 +1059,7 @@ def run_key_sequence(env, seq, res, replay, context='', start=0):
 
 def key_ops(env_specs, addresses, alphabet):
     """Lookup alphabet.  'R' (reduced): index 0 only, private via A and L, public via A.  'F' (full): first and
-    last generated index, both kinds via A, M and L."""
+    last generated index, both kinds via A, M and L.  'G': as F without the AddressManager API."""
     ops = []
     for a, sp in enumerate(env_specs):
         chains = (0, 1) if sp['gen'] == 'hd' else (0,)
@@ -1070,7 +1070,7 @@ def key_ops(env_specs, addresses, alphabet):
                 if alphabet == 'R':
                     ops += [('q', a, c, n, 'A'), ('q', a, c, n, 'L'), ('p', a, c, n, 'A')]
                 else:
-                    ops += [(k, a, c, n, api) for k in 'qp' for api in 'AML']
+                    ops += [(k, a, c, n, api) for k in 'qp' for api in ('AML' if alphabet == 'F' else 'AL')]
     return ops
 
 
@@ -1210,9 +1210,9 @@ def _n_key_firsts(wallet_id, alphabet):
     for sp in specs:
         if sp['gen'] == 'hd':
             for g in sp['gaps']:
-                n += 3 if alphabet == 'R' else 6 * len({0, g - 1})
+                n += 3 if alphabet == 'R' else (6 if alphabet == 'F' else 4) * len({0, g - 1})
         else:
-            n += 3 if alphabet == 'R' else 6
+            n += 3 if alphabet == 'R' else (6 if alphabet == 'F' else 4)
     return n + len(specs)
 
 
@@ -1259,7 +1259,7 @@ def run(ctx):
     chain_items = [('chain', c) for c in cfgs]
     # account-level key lookup: every order of `depth` operations; item = one first operation
     key_plan = [('K1', 'R', 3), ('K1', 'F', 2)] if ctx.quick else \
-               [('K1', 'R', 4), ('K1', 'F', 3), ('K2', 'R', 3), ('K2', 'F', 2)]
+               [('K1', 'R', 4), ('K1', 'G', 3), ('K1', 'F', 2), ('K2', 'R', 3), ('K2', 'F', 2)]
     key_items = []
     for wid, alphabet, kdepth in key_plan:
         n_first = _n_key_firsts(wid, alphabet)
